@@ -818,19 +818,24 @@ func (c *Ctx) flushFunc() *ssa.Function {
 }
 
 // queueFunc: the function that appends to both event queues (setState).
+// queueFunc: the one function that appends to both event queues, selected by
+// a family argument (setState) — nil when the code has one function per
+// family instead; the per-wrapper summaries (queueEffects) then carry the
+// pairing on their own.
 func (c *Ctx) queueFunc() *ssa.Function {
-	return c.role("ab.setState", func() *ssa.Function {
-		a := c.storesField("sessionStateEvents", nil)
-		b := c.storesField("cookieStateEvents", nil)
-		for _, f := range a {
-			for _, g := range b {
-				if f == g && !c.isRequestEntryLike(f) {
-					return f
-				}
+	if f := c.P.FuncOpt("ab.setState"); f != nil {
+		return f
+	}
+	a := c.storesField("sessionStateEvents", nil)
+	b := c.storesField("cookieStateEvents", nil)
+	for _, f := range a {
+		for _, g := range b {
+			if f == g && !c.isRequestEntryLike(f) {
+				return f
 			}
 		}
-		return nil
-	})
+	}
+	return nil
 }
 
 // isRequestEntryLike: constructors of the writer also store the queue fields (as nil/empty).
